@@ -190,6 +190,28 @@ def handler(st, opts):
                     problems.append(P("stale-use", "call %d: after the call, %s + %s no longer equals twice its earlier value" % (it + 1, names[n], names[n]), {"arg": names[n]}))
             except Exception as ex:  # noqa
                 problems.append(P("stale-use", "call %d: after the call, %s + %s raises %s: %s" % (it + 1, names[n], names[n], type(ex).__name__, str(ex)[:120]), {"arg": names[n]}))
+    # independence of result and operands under the documented in-place operations: set_core on the result must change
+    # nothing but the result, set_core on an operand nothing but that operand ("a result obtained earlier keeps its value")
+    if isinstance(out, tt.TT) and len(out.cores) > 0 and op not in INPLACE and not problems:
+        try:
+            snap = algrun.snapshot(objs)
+            c0 = out.cores[0]
+            out.set_core(0, (c0 * 2 + 1).detach().clone())
+            stats["calls"] += 1
+            for n, why in algrun.changed(objs, snap):
+                problems.append(P("aliased-result", "set_core on the result changed argument '%s': %s" % (names[n], "; ".join(why)), {"arg": names[n]}))
+            ref = project.dense(out.cores).clone()
+            for n, o in enumerate(objs):
+                if o is out:
+                    continue
+                c0 = o.cores[0]
+                o.set_core(0, (c0 * 2 + 1).detach().clone())
+                now = project.dense(out.cores)
+                if now.shape != ref.shape or not torch.equal(now, ref):
+                    problems.append(P("aliased-result", "set_core on argument '%s' changed the result obtained earlier" % names[n], {"arg": names[n]}))
+                    break
+        except Exception as ex:  # noqa
+            problems.append(P("aliased-result", "set_core on result / argument after the call raised %s: %s" % (type(ex).__name__, str(ex)[:120])))
     return {"problems": problems, "stats": stats, "sample": {"entry": {"op": op, "args": list(e["args"]), "mutates": sorted(e["mut"]) if e["mut"] else []},
                                                              "shape": shape, "guess": gmode}}
 
